@@ -213,26 +213,56 @@ def r1_algebra(program, rep):
         rep.check(not bad, "C04-R1", qual(f), "X bits = %s" % text,
                   construct="xs truth table", node=f)
     f = program.get(UT + ":get_common_xs")
-    r = returns_of(f)
-    ff = Flow(f)
-    accs = {d.var: (type(d.value.op).__name__, unparse(d.value.value))
-            for d in ff.defs if d.mode == "aug"}
-    ok = accs == {"key": ("BitOr", "entry.key"),
-                  "mask": ("BitOr", "entry.mask")}
-    if ok and len(r) == 1:
-        e = r[0].value
-        # ~(key | mask) & 0xffffffff
-        ok = isinstance(e, ast.BinOp) and isinstance(e.op, ast.BitAnd)
-        if ok:
-            t = _tt(e.left, ["key", "mask"])
-            ok = all(bool(v) == (not a and not b)
-                     for (a, b), v in t.items())
-    rep.check(ok, "C04-R1", qual(f), "common Xs = bits that are X in every "
-              "entry: ~(OR of keys | OR of masks)",
-              construct="get_common_xs", node=f)
+    rep.guard("C04-R1", _common_xs, f, rep)
     f = program.get(OC + ":_refine_downcheck")
     rep.guard("C04-R1", _settable, f, rep)
     rep.floor("C04-R1", 9)
+
+
+def _common_xs(f, rep):
+    """get_common_xs = ~(OR of all keys | OR of all masks), the accumulators
+    recognised by what they accumulate (value terms), the word expression
+    compared as a truth table."""
+    T = Terms(f)
+    rets = [r for r in returns_of(f) if r.value is not None]
+    if len(rets) != 1:
+        raise AnalysisError("get_common_xs: one return expected")
+    t = T.term(rets[0].value, T.cfg.node_of(rets[0]))
+    ENTRY = ("elem", ("param", formals(f)[0]))
+    roles = {}
+    for st in subterms(t):
+        if st[0] != "mu" or st in roles:
+            continue
+        alts = [plain(x) for x in one_level(st)]
+        role = None
+        if len(alts) == 2 and ("const", 0) in alts:
+            o = [x for x in alts if x != ("const", 0)][0]
+            if o[0] == "binop" and o[1] == "BitOr" and plain(st) in (o[2],
+                                                                     o[3]):
+                w = o[3] if o[2] == plain(st) else o[2]
+                if w[0] == "attr" and w[1] == ENTRY and \
+                        w[2] in ("key", "mask"):
+                    role = w[2]
+        if role is None:
+            raise AnalysisError("get_common_xs: an accumulator is not the "
+                                "OR of the entries' keys or masks from 0")
+        roles[st] = role
+    if sorted(roles.values()) != ["key", "mask"]:
+        raise AnalysisError("get_common_xs: the OR of all keys and the OR "
+                            "of all masks were not both found")
+
+    def sub(x):
+        if x in roles:
+            return ("param", "K" if roles[x] == "key" else "M")
+        if not isinstance(x, tuple) or not x or x[0] == "const":
+            return x
+        return tuple(sub(y) if isinstance(y, tuple) else y for y in x)
+    e = _wp(reify(plain(sub(t))))
+    tt = _tt(e, ["K", "M"])
+    ok = all(bool(v) == (not a and not b) for (a, b), v in tt.items())
+    rep.check(ok, "C04-R1", qual(f), "common Xs = bits that are X in every "
+              "entry: ~(OR of keys | OR of masks)",
+              construct="get_common_xs", node=f)
 
 
 def _settable(f, rep):
@@ -659,9 +689,16 @@ def r3_ranges(program, rep):
     # and never reset
     okc = False
     r = returns_of(up)
-    if len(r) == 1 and isinstance(r[0].value, ast.Tuple) and \
-            len(r[0].value.elts) == 2 and rem:
-        flag = chain(r[0].value.elts[1])
+    flag_ = None
+    if len(r) == 1 and r[0].value is not None:
+        rt_ = T.term(r[0].value, cfg.node_of(r[0]))
+        if rt_[0] == "tuple" and len(rt_) == 3 and rt_[2][0] == "mu":
+            flag_ = rt_[2][1].var        # the variable merged at the return
+        elif isinstance(r[0].value, ast.Tuple) and \
+                len(r[0].value.elts) == 2:
+            flag_ = chain(r[0].value.elts[1])
+    if flag_ is not None and rem:
+        flag = flag_
         binds = [b_ for b_ in T.binds if b_.var == flag]
         rn = rem[0][1]
         loops = [x for x in ast.walk(up) if isinstance(x, (ast.For,
